@@ -373,7 +373,8 @@ void GridFourier::getInterpolationWeights(const double x[], double weights[]) co
             double fftprod = 1.0;
             for(int j=num_dimensions-1; j>=0; j--){ // here p is the index of the spacial point in Tasmanian indexing
                 int r = t % num_oned_points[j];
-                int offset = (r*(num_oned_points[j]+1)/2) % num_oned_points[j];     // in order to fetch reduced form of (N+1)*r/(2*N)
+                // in order to fetch reduced form of (N+1)*r/(2*N), the product r * (N+1) does not fit in int for level 10 and above
+                int offset = static_cast<int>((static_cast<long long>(r) * (num_oned_points[j]+1) / 2) % num_oned_points[j]);
 
                 if (std::abs(1.0 - (numerator_cache[j][0] * expcache[levels[j]][r]).real()) <  Maths::num_tol){
                     // we're evaluating the basis functions at a node; take care of zero-divide
